@@ -317,7 +317,7 @@ Qed.
 
 (* the closed state satisfies the invariant of birth_death_tree: the common finishing phase applies *)
 Lemma fclosed_bd_inv : forall N st, fbd_inv N st ->
-  bd_inv N (mkSt (f_tr (fclosed st)) (f_ext st) (f_dead st) [] (f_next st)).
+  bd_inv N (mkSt (f_tr (fclosed st)) (f_ext st) (f_dead st) [] [] (f_next st) 0%Q).
 Proof.
   intros N st I. unfold fclosed. cbn [f_tr]. rewrite close_set_relabel.
   constructor; cbn [s_tr s_ext s_dead s_next].
@@ -346,7 +346,7 @@ Proof.
   intros fn cs P ns script t ns' r HN H. unfold fbd_sim, fbd_run in H.
   step H. destruct (fbd_loop_inv _ _ _ _ _ _ HN (fbd_init_inv _ HN) Hs) as (st0 & I & Hlen & ->).
   step H. pose proof (fclosed_bd_inv _ _ I) as BI.
-  destruct (finish_spec fn cs ns _ (mkSt (f_tr (fclosed st0)) (f_ext st0) (f_dead st0) [] (f_next st0))
+  destruct (finish_spec fn cs ns _ (mkSt (f_tr (fclosed st0)) (f_ext st0) (f_dead st0) [] [] (f_next st0) 0%Q)
               _ _ ns' _ BI Hs0 t r H) as (F1 & F2 & F3 & F4 & F5 & F6 & F7).
   cbn [s_ext] in F1.
   split; [rewrite F1; exact Hlen|]. split; [apply (proj1 (arity_subtrees bin t)); exact F2|].
